@@ -210,11 +210,33 @@ Theorem C01_let_through_weight_bound : forall kappa f sched clk0,
 Proof. intros kappa f sched clk0 Hk. exact (let_through_weight_bound kappa Hk f sched clk0). Qed.
 Print Assumptions C01_let_through_weight_bound.
 
+(* [passes] is written only by the chain-level Allowed: for a walk decomposed
+   into KInc / KAllowed steps (the interleavings of concurrent walks) it stays
+   empty and the first inequality above says 0 <= charged cost.  The bound that
+   speaks about those walks is the one on the TRUE PER-KEY VERDICTS ([grants],
+   written by Allowed and KAllowed alike; [gsum_w kappa d]: cost kappa of the
+   granted request for a custom counter, 1 otherwise): per key and window
+      cost let through by whole walks <= cost of the true per-key verdicts
+                                      <= charged cost <= max.
+   Same hypotheses as above (audit 2, item 19). *)
+Theorem C01_granted_weight_bound : forall kappa f sched clk0,
+  (forall r, 0 <= kappa r) ->
+  wf_forest f = true -> clock_ok clk0 sched -> Forall (act_ok kappa) sched ->
+  let w := fst (run f init sched) in
+  forall k d s, lookup (fst k) f = Some d ->
+    psum k s (passes w) <= gsum_w kappa d k s (grants w) /\
+    gsum_w kappa d k s (grants w) <= csum k s (charges w) /\
+    csum k s (charges w) <= q_max d.
+Proof. intros kappa f sched clk0 Hk. exact (granted_weight_bound kappa Hk f sched clk0). Qed.
+Print Assumptions C01_granted_weight_bound.
+
 (* A chain walk decomposed into its per-key bodies (the real interleaving of
    concurrent walks) logs nothing in [passes]; there "let through" means a true
    verdict of the per-key Allowed on every key of the chain, and every such
-   verdict is a grant of that key in its stored window - the log bounded by
-   [gcount <= ccount (<= max)] above and in C01_admitted_bound. *)
+   verdict is a grant of that key in its stored window - the log bounded in
+   COUNTS by [gcount <= ccount] (C01_counts_bound; [<= max] only for
+   request-counting quotas, C01_admitted_bound) and in COST UNITS by
+   C01_granted_weight_bound above. *)
 Theorem C01_true_key_verdict_is_granted : forall f w q d rq w',
   lookup q f = Some d -> step f w (KAllowed q rq) = (w', OBool true) ->
   grants w' = {| g_key := key_of q d rq; g_ws := ws_or0 (st w (key_of q d rq)); g_req := r_id rq |} :: grants w.
@@ -447,6 +469,37 @@ Proof.
   - repeat split; vm_compute; reflexivity.
 Qed.
 
+(* the same finding WITH per-level readings (audit 2, item 19): every request
+   reads a later instant at the parent.  r1: child 5.0 s, parent 5.0 s + 1 ns,
+   let through; r2: child 5.0 s + 100 ns, parent 5.0 s + 200 ns - refused by the
+   parent, its charge stays on the child (the only phantom); r3 reads
+   5.999999999 s at the child and 6.0 s at the parent (the parent's window is
+   over at that reading): refused, no key full of let-through requests, the
+   child filled by the phantom.  So the hypotheses of
+   C01_exact_sequential_with_phantoms / C01_spurious_refusal_iff_decisive_phantom
+   ([seq_clock_ok_t] on a history whose [later] lists are not empty) hold
+   together with a decisive phantom, not only on [lift_h] histories. *)
+Definition F_C01_hist_t : list treq :=
+  [(2, mkr 1 [] 0, 5 * sec, [5 * sec + 1]); (2, mkr 2 [] 0, 5 * sec + 100, [5 * sec + 200])].
+Example C01_example_phantoms_levels :
+  let h := F_C01_hist_t in
+  let w := fst (seq_run_t F_C01_forest init h) in
+  let P := phantoms F_C01_forest init h in
+  let l := with_times F_C01_chain (6 * sec - 1) [6 * sec] in
+  wf_forest F_C01_forest = true /\ seq_clock_ok_t 0 h /\
+  chain_of F_C01_forest 2 = Some F_C01_chain /\
+  snd (seq_run_t F_C01_forest init h) = [OBool true; OBool false] /\
+  P = [{| c_key := (2, 0); c_ws := 5; c_at := 5 * sec + 100; c_req := 2; c_cost := 1 |}] /\
+  snd (seq_step_t F_C01_forest w (2, mkr 3 [] 0, 6 * sec - 1, [6 * sec])) = OBool false /\
+  existsb (pass_full_at w (mkr 3 [] 0)) l = false /\
+  existsb (phantom_fills_at P w (mkr 3 [] 0)) l = true /\
+  forallb (outside_decisive_phantom P w (mkr 3 [] 0)) l = false.
+Proof.
+  cbv zeta. split; [vm_compute; reflexivity|]. split.
+  - unfold F_C01_hist_t, sec. cbn [seq_clock_ok_t mono last]. repeat split; lia.
+  - repeat split; vm_compute; reflexivity.
+Qed.
+
 (* custom counter, max 3 / 1 s: costs by request id 2, 2, 1 - the hypotheses of
    the weighted bound hold; r2 is refused, r1 and r3 are let through: 3 cost units *)
 Definition cc_forest : forest := [(1, mkq 3 1 None None true)].
@@ -458,12 +511,33 @@ Example C01_example_weighted :
   (forall r, 0 <= cc_kappa r) /\ wf_forest cc_forest = true /\ clock_ok 0 cc_sched /\
   Forall (act_ok cc_kappa) cc_sched /\
   snd (run cc_forest init cc_sched) = [ONone; ORes Blocked; OBool true; OBool false; ONone; OBool true] /\
-  psum (1, 0) 5 (passes (fst (run cc_forest init cc_sched))) = 3.
+  psum (1, 0) 5 (passes (fst (run cc_forest init cc_sched))) = 3 /\
+  gsum_w cc_kappa (mkq 3 1 None None true) (1, 0) 5 (grants (fst (run cc_forest init cc_sched))) = 3.
 Proof.
   split; [intros r; unfold cc_kappa; destruct (r =? 3); lia|].
   split; [vm_compute; reflexivity|]. split.
   - unfold cc_sched, sec. cbn [clock_ok time_of]. repeat split; lia.
-  - split; [repeat constructor|]. split; vm_compute; reflexivity.
+  - split; [repeat constructor|]. repeat split; vm_compute; reflexivity.
+Qed.
+
+(* the same three requests as walks decomposed into their per-key bodies:
+   [passes] stays empty (the weighted bound on passes says nothing), the true
+   per-key verdicts weigh 2 + 1 = 3 = the charged cost = max *)
+Definition cc_ksched : list action :=
+  [KInc 1 (mkr 1 [] 2) (5 * sec); KInc 1 (mkr 2 [] 2) (5 * sec + 1); KAllowed 1 (mkr 1 [] 2);
+   KAllowed 1 (mkr 2 [] 2); KInc 1 (mkr 3 [] 1) (5 * sec + 2); KAllowed 1 (mkr 3 [] 1)].
+Example C01_example_weighted_decomposed :
+  clock_ok 0 cc_ksched /\ Forall (act_ok cc_kappa) cc_ksched /\
+  (let w := fst (run cc_forest init cc_ksched) in
+   snd (run cc_forest init cc_ksched)
+     = [ORes Increased; ORes Blocked; OBool true; OBool false; ORes Increased; OBool true] /\
+   passes w = [] /\ psum (1, 0) 5 (passes w) = 0 /\
+   gsum_w cc_kappa (mkq 3 1 None None true) (1, 0) 5 (grants w) = 3 /\
+   csum (1, 0) 5 (charges w) = 3).
+Proof.
+  split; [unfold cc_ksched, sec; cbn [clock_ok time_of]; repeat split; lia|].
+  split; [repeat constructor|].
+  vm_compute. repeat split; reflexivity.
 Qed.
 
 (* negative custom costs void the REQUEST-COUNT reading (not the theorems): max 1,
@@ -484,7 +558,13 @@ From Verif Require Import C01.Metrics.
    any two atomic steps - between the Inc and the Allowed of a transaction, at
    a window end.  Frame: erasing the collections from ANY schedule (any start
    world) leaves the final world - every window start, counter, admission
-   record, log - and the output of every other step unchanged. *)
+   record, log - and the output of every other step unchanged.
+   NOTE: [scrape SFaithful] is the identity BY DEFINITION (Metrics.v), so this
+   theorem proves nothing about the code; that a collection changes nothing
+   rests on the suites res/eng (real gauge callbacks; props `trusted`).  Its
+   use: it is the bridge from what suite res evaluates ([erun] -> [mrun]) to
+   the [run] of the schedule theorems, and the statement the refuted variants
+   below fail. *)
 Theorem C01_scrape_frame : forall f ms w,
   fst (mrun f w ms) = fst (run f w (erase ms)) /\
   erase_outs ms (snd (mrun f w ms)) = snd (run f w (erase ms)).
@@ -496,8 +576,10 @@ Theorem C01_scrape_frame_faithful : scrape_frame SFaithful.
 Proof. exact scrape_frame_faithful. Qed.
 Print Assumptions C01_scrape_frame_faithful.
 
-(* ... false when the scrape starts a fresh window (seeded change C01-10: max 1,
-   a second request let through in the same window after the scrape) ... *)
+(* ... false when the scrape starts a fresh window (seeded change C01-10: max 1 /
+   10 s, the window [15 s, 25 s) filled by r2, a scrape at 16 s of a group object
+   created at 5 s - older than one window, so the seed's own age test fires as
+   well - and r3 let through at 17 s; Metrics.ms_reset, reset_witness_verdicts) ... *)
 Theorem C01_scrape_resets_window_refuted : ~ scrape_frame SResetsWindow.
 Proof. exact scrape_frame_resets_refuted. Qed.
 Print Assumptions C01_scrape_resets_window_refuted.
